@@ -579,6 +579,7 @@ func runC12(c *Ctx) {
 	checkClones(c, "recovery-clone", "pkg/sql/parser", "Parser", "Parse", parseLoopDeltas[2:3])
 	c12Anchor(c, p, m)
 	c12SyncKeywords(c, p)
+	c12SkipLoops(c, p)
 }
 
 // c01AdvanceEOFQuiet re-checks advance()'s end-of-input store for C12 (termination depends on it).
